@@ -64,6 +64,8 @@ type Check struct {
 	Goal      string
 	Trivial   bool // goal folded to true
 	ExpectSat bool // cover / canary: must NOT be unsat
+	Raw       string // complete stand-alone query (pure QF_BV lemma)
+	TimeoutMs int    // per-obligation timeout override
 	Info      string
 	Path      string
 	Src       string
@@ -393,3 +395,7 @@ func sortedKeys(m map[string]bool) []string {
 	sort.Strings(out)
 	return out
 }
+
+// useBvop records that a query mentions an uninterpreted bit operation; the
+// declaration (or, in bvbridge mode, the definition) is emitted by buildScript.
+func (st *State) useBvop(fn string) { st.decl["bvop:"+fn] = true }
